@@ -109,3 +109,20 @@ Definition run_asdict (init : list sstate) (pre : list op) (valid : list bytes) 
                  end
              end
        end ].
+
+(* ---- as_dict with attrs elements of any type (the rejection class: at least one element is not a valid name) *)
+Definition run_asdict_any (init : list sstate) (pre : list op) (valid : list bytes) (tbl : list (bytes * callee))
+           (attrs : attrs_any) : jv :=
+  let q0 := sq_run (sq_init (srcs_of init)) pre in
+  let n0 := length (q_res q0) in
+  let (q, r) := as_dict_any valid (fun n => lookup_callee n tbl) attrs q0 in
+  let calls := rev (firstn (length (q_res q) - n0) (q_res q)) in
+  let total := fold_left add4 (map snd calls) zero4 in
+  JL [ jv_outcome jv_dict r; jv_cnt total; jv_ptrs (q_sh q);
+       match attrs with
+       | PNotColl => JL [jv_outcome jv_dict (Exc TypeError); jv_cnt zero4]
+       | PColl ns => if existsb (fun n => negb (name_valid valid n)) ns
+                     then JL [jv_outcome jv_dict (Exc ValueError); jv_cnt zero4]
+                     else jnone
+       | PNone => jnone
+       end ].
